@@ -373,17 +373,47 @@ pub fn http_limit_round(seed: u64) -> Value {
     if let Some(c) = &ctx {
         q.push(format!("context-id={}", c));
     }
-    let Ok(mut conn) = Conn::open(&sock) else { return inconclusive("no connection".into()) };
-    let mut req = Req::new("GET", &format!("/?{}", q.join("&")));
-    if sse {
-        req = req.header("Accept", b"text/event-stream");
-    }
-    if conn.send(&req.bytes()).is_err() {
-        return inconclusive("send failed".into());
-    }
-    let Ok((status, headers)) = conn.read_head(Duration::from_secs(20)) else { return inconclusive("no response head".into()) };
-    if status != 200 {
-        return inconclusive(format!("status {}", status));
+    // some rounds go through the client library (what `xs cat --pulse <ms> --limit n` uses) instead of raw HTTP
+    let via_client = !sse && (seed >> 7) % 5 < 2;
+    let mut client_task: Option<std::thread::JoinHandle<(Vec<u8>, bool)>> = None;
+    let mut conn_and_headers = None;
+    if via_client {
+        let addr = dir.to_string_lossy().to_string();
+        let opts = xs::store::ReadOptions::builder()
+            .follow(xs::store::FollowOption::WithHeartbeat(Duration::from_millis(pulse_ms)))
+            .limit(n)
+            .maybe_last_id(before_hist.as_ref().and_then(|l| l.parse::<scru128::Scru128Id>().ok()))
+            .maybe_context_id(ctx.as_ref().and_then(|c| c.parse::<scru128::Scru128Id>().ok()))
+            .build();
+        client_task = Some(std::thread::spawn(move || {
+            let rt = tokio::runtime::Builder::new_current_thread().enable_all().build().unwrap();
+            rt.block_on(async move {
+                let Ok(mut rx) = xs::client::cat(&addr, opts, false).await else { return (vec![], false) };
+                let mut buf = vec![];
+                loop {
+                    match tokio::time::timeout(Duration::from_secs(10), rx.recv()).await {
+                        Ok(Some(b)) => buf.extend_from_slice(&b),
+                        Ok(None) => return (buf, true),
+                        Err(_) => return (buf, false),
+                    }
+                }
+            })
+        }));
+        std::thread::sleep(Duration::from_millis(50));
+    } else {
+        let Ok(mut conn) = Conn::open(&sock) else { return inconclusive("no connection".into()) };
+        let mut req = Req::new("GET", &format!("/?{}", q.join("&")));
+        if sse {
+            req = req.header("Accept", b"text/event-stream");
+        }
+        if conn.send(&req.bytes()).is_err() {
+            return inconclusive("send failed".into());
+        }
+        let Ok((status, headers)) = conn.read_head(Duration::from_secs(20)) else { return inconclusive("no response head".into()) };
+        if status != 200 {
+            return inconclusive(format!("status {}", status));
+        }
+        conn_and_headers = Some((conn, headers));
     }
     // let several heartbeats pass, then append the rest (and two more that must not be delivered)
     std::thread::sleep(Duration::from_millis(pulse_ms * (3 + rng.below(4) as u64)));
@@ -398,15 +428,19 @@ pub fn http_limit_round(seed: u64) -> Value {
         }
         std::thread::sleep(Duration::from_millis(rng.below(30) as u64));
     }
-    let r = conn.read_body(&headers, Duration::from_secs(10), |_| false);
-    let (body, ended) = match r {
-        Ok((b, complete, _)) => (b, complete),
-        Err(_) => (vec![], false),
+    let (body, ended) = if let Some(t) = client_task {
+        t.join().unwrap_or((vec![], false))
+    } else {
+        let (mut conn, headers) = conn_and_headers.unwrap();
+        match conn.read_body(&headers, Duration::from_secs(10), |_| false) {
+            Ok((b, complete, _)) => (b, complete),
+            Err(_) => (vec![], false),
+        }
     };
     let frames: Vec<Frame> = if sse { http::sse(&body).into_iter().filter_map(|e| serde_json::from_value::<Frame>(e.1).ok()).collect() } else { http::ndjson(&body).into_iter().filter_map(|v| serde_json::from_value::<Frame>(v).ok()).collect() };
     let real: Vec<String> = frames.iter().filter(|f| f.topic != "xs.pulse" && f.topic != "xs.threshold").map(|f| f.id.to_string()).collect();
     let pulses = frames.iter().filter(|f| f.topic == "xs.pulse").count();
-    let d = json!({"history": hist, "limit": n, "pulse_ms": pulse_ms, "rendering": if sse { "sse" } else { "ndjson" }, "scoped": in_ctx, "real": real.len(), "pulses": pulses, "ended": ended});
+    let d = json!({"history": hist, "limit": n, "pulse_ms": pulse_ms, "rendering": if sse { "sse" } else { "ndjson" }, "through": if via_client { "client library" } else { "raw http" }, "scoped": in_ctx, "real": real.len(), "pulses": pulses, "ended": ended});
     let mut inconc = Value::Null;
     if !ended {
         if real.len() >= n {
@@ -432,6 +466,122 @@ pub fn http_limit_round(seed: u64) -> Value {
         "inconclusive": inconc,
         "nontrivial": pulses > 0,
         "http_limit_round": true,
+        "via_client": via_client,
         "pulses_before_the_nth_frame": pulses,
+    })
+}
+
+/// C03 through the command-line client: `xs cat -f` whose stdout is not read for a while (a slow consumer on a
+/// pipe), a history larger than the pipe and the client's queue, frames appended meanwhile; then everything is
+/// drained. Every frame exactly once, in order.
+pub fn cli_follow_round(seed: u64) -> Value {
+    use std::io::{BufRead, BufReader};
+    use std::process::{Command, Stdio};
+    let mut rng = Rng::new(seed);
+    let dir = work_dir("e2hc");
+    let mut sess = match Session::spawn(&dir, true) {
+        Ok(s) => s,
+        Err(e) => return json!({"mode": "c03-cli", "seed": seed, "violations": [], "inconclusive": format!("session: {}", e)}),
+    };
+    let sock = dir.join("sock");
+    let inconclusive = |m: String| json!({"mode": "c03-cli", "seed": seed, "violations": [], "inconclusive": m});
+    let Some(bin) = crate::session::self_exe().parent().map(|p| p.join("xs-real")).filter(|b| b.exists()) else { return inconclusive("xs-real binary not built".into()) };
+    let hist_n = [200u64, 400, 800][rng.below(3)];
+    let size = [700u64, 1000, 2500][rng.below(3)];
+    let v = match sess.call_t(json!({"op": "bulk", "n": hist_n, "size": size, "tag": 9, "topic": "hist"}), Duration::from_secs(120)) {
+        Ok(v) => v,
+        Err(e) => return inconclusive(format!("bulk: {}", e)),
+    };
+    let mut want: Vec<String> = crate::model::parse_pairs(&sess.call(json!({"op": "read_sync", "digest": true})).map(|v| v["frames"].clone()).unwrap_or(Value::Null)).into_iter().map(|p| crate::model::id_str(p.0)).collect();
+    let _ = v;
+    let mut child = match Command::new("timeout").arg("-k").arg("2").arg("90").arg(&bin).arg("cat").arg(dir.to_string_lossy().to_string()).arg("-f").stdin(Stdio::null()).stdout(Stdio::piped()).stderr(Stdio::null()).spawn() {
+        Ok(c) => c,
+        Err(e) => return inconclusive(format!("spawn: {}", e)),
+    };
+    let stdout = child.stdout.take().unwrap();
+    // nobody reads for a while
+    std::thread::sleep(Duration::from_millis(800 + rng.below(1200) as u64));
+    let mut acked = 0;
+    for i in 0..3 + rng.below(6) {
+        if let Ok(resp) = http::once(&sock, &Req::new("POST", "/live").body(format!("live {}", i).as_bytes()), Duration::from_secs(30)) {
+            if let Ok(f) = serde_json::from_slice::<Frame>(&resp.body) {
+                want.push(f.id.to_string());
+                acked += 1;
+            }
+        }
+    }
+    let (tx, rx) = std::sync::mpsc::channel::<String>();
+    std::thread::spawn(move || {
+        for l in BufReader::new(stdout).lines().map_while(Result::ok) {
+            if tx.send(l).is_err() {
+                break;
+            }
+        }
+    });
+    // drain until the stream has been quiet for a while after everything expected has (or should have) arrived
+    let mut lines: Vec<String> = vec![];
+    let t0 = Instant::now();
+    let mut sentinel_id: Option<String> = None;
+    loop {
+        match rx.recv_timeout(Duration::from_millis(1500)) {
+            Ok(l) => {
+                let done = sentinel_id.as_ref().map(|s| l.contains(s.as_str())).unwrap_or(false);
+                lines.push(l);
+                if done {
+                    break;
+                }
+            }
+            Err(_) => {
+                // quiet: the client has caught up with what exists; now append the end marker (live phase for certain)
+                if sentinel_id.is_none() {
+                    match http::once(&sock, &Req::new("POST", "/sentinel"), Duration::from_secs(30)).ok().and_then(|r| serde_json::from_slice::<Frame>(&r.body).ok()) {
+                        Some(f) => {
+                            want.push(f.id.to_string());
+                            sentinel_id = Some(f.id.to_string());
+                        }
+                        None => break,
+                    }
+                } else {
+                    break;
+                }
+            }
+        }
+        if t0.elapsed() > Duration::from_secs(60) {
+            break;
+        }
+    }
+    let _ = child.kill();
+    let _ = child.wait();
+    let frames: Vec<Frame> = lines.iter().filter_map(|l| serde_json::from_str::<Frame>(l).ok()).collect();
+    let unparsable = lines.iter().filter(|l| !l.trim().is_empty() && serde_json::from_str::<Value>(l).is_err()).count();
+    let real: Vec<String> = frames.iter().filter(|f| f.topic != "xs.threshold" && f.topic != "xs.pulse").map(|f| f.id.to_string()).collect();
+    let d = json!({"history": hist_n, "pad": size, "appended_meanwhile": acked, "received": real.len(), "expected": want.len()});
+    let mut out: Vec<Value> = vec![];
+    let mut inconc = Value::Null;
+    let got_sentinel = sentinel_id.as_ref().map(|s| real.contains(s)).unwrap_or(false);
+    if !got_sentinel {
+        inconc = json!("the end marker did not come out of the command-line client within its watchdog");
+    } else if unparsable > 0 {
+        out.push(json!({"props": ["C03", "C12"], "signature": "cli-follow/output-line-is-not-a-frame", "detail": {"round": d, "unparsable_lines": unparsable}}));
+    } else if real != want {
+        let set: BTreeSet<&String> = real.iter().collect();
+        let sig = if set.len() != real.len() { "cli-follow/frame-printed-twice" } else if want.iter().any(|w| !set.contains(w)) { "cli-follow/frame-lost-between-server-and-stdout" } else { "cli-follow/frames-out-of-order" };
+        let missing: Vec<&String> = want.iter().filter(|w| !set.contains(w)).take(5).collect();
+        out.push(json!({"props": ["C03"], "signature": sig, "detail": {"round": d, "first_missing": missing}}));
+    }
+    sess.close();
+    rm_dir(&dir);
+    json!({
+        "mode": "c03-cli",
+        "seed": seed,
+        "config": d,
+        "frames": real.len(),
+        "window_hits": acked,
+        "class": format!("cli-follow/{}x{}", hist_n, size),
+        "shape": format!("cli-follow/hist={}x{}", hist_n, size),
+        "violations": out,
+        "inconclusive": inconc,
+        "nontrivial": acked > 0,
+        "cli_follow_round": true,
     })
 }
